@@ -232,3 +232,44 @@ func goFilesBelow(root string) []string {
 }
 
 var defaultGoroot = runtime.GOROOT()
+
+// roundTripSave is roundTrip through File.Save: the program is written to target (which already
+// exists) and the file read back is compared with the reference tree. Kind "" = not translatable.
+func roundTripSave(filename string, src []byte, realName func(string) string, target string) (res bridgeResult) {
+	defer func() {
+		if r := recover(); r != nil {
+			res.Kind, res.Detail = "PANIC", fmt.Sprint(r)
+		}
+	}()
+	af, err := parser.ParseFile(token.NewFileSet(), filename, src, parser.ParseComments)
+	if err != nil {
+		return
+	}
+	seen := map[string]bool{}
+	for _, is := range af.Imports {
+		if seen[is.Path.Value] {
+			return
+		}
+		seen[is.Path.Value] = true
+	}
+	c := &a2j.Conv{}
+	f := c.File(af, realName)
+	if c.Skip != "" {
+		return
+	}
+	if err := f.Save(target); err != nil {
+		res.Kind, res.Detail = "SAVE-ERROR", err.Error()
+		return
+	}
+	out, err := os.ReadFile(target)
+	if err != nil {
+		res.Kind, res.Detail = "SAVE-ERROR", err.Error()
+		return
+	}
+	af2, err := parser.ParseFile(token.NewFileSet(), "saved.go", out, parser.ParseComments)
+	if err != nil {
+		res.Kind, res.Detail = "REPARSE-ERROR", err.Error()
+		return
+	}
+	return compareTrees(af, af2, res)
+}
